@@ -1,5 +1,6 @@
 import MdsVerif.Proofs.MdiffApply
 import MdsVerif.Proofs.MdiffApplyU
+import MdsVerif.Proofs.MdiffApplyC
 import MdsVerif.Proofs.MdiffApplyP
 import MdsVerif.Props.C13
 /-!
@@ -59,6 +60,20 @@ example :
       str "> Y", str "> Z"] ∧
     DiffApply.applyNormal (normal cs) exL = some exR := by decide
 
+/-- every chunk of `New` (for a valid, canonical script) consists of `EditOK` edits and contains an
+edit that is not an Emit (`Props.C13.newChunks_ok`: no Emit at all, and at least one edit) -/
+theorem newChunks_good (L R : List Line) (hvalid : EditScript.Valid (editScript L R) L R)
+    (hcanon : EditScript.Canonical (editScript L R)) :
+    ∀ c ∈ newChunks (editScript L R), Good EditOK c := by
+  have r := C13.newChunks_ok (editScript L R) L R hvalid
+  have hok := newChunks_all EditOK _ (editOK_of_valid_canonical _ hvalid hcanon)
+  intro c hc
+  refine ⟨hok c hc, ?_⟩
+  have hne := (r.2.2.2.2.2 c hc).2
+  cases he : c.edits with
+  | nil => exact absurd he hne
+  | cons e es => exact ⟨e, by simp, r.2.2.2.2.1 c hc e (by simp [he])⟩
+
 /-- **apply_normal_new.**  The normal-format rendering of `New(L, R)`, applied to `L` by the
 reference rules, gives `R`.  `hvalid`, `hcanon` are C11's theorems about `EditScript` (the script is
 valid and canonical); they give `AllOK`/`Aligned` (`Props.C13.newChunks_ok`, `newChunks_aligned`)
@@ -76,6 +91,48 @@ example :
     EditScript.validB (editScript exL exR) exL exR = true ∧
     EditScript.canonicalB (editScript exL exR) = true ∧
     DiffApply.applyNormal (normal (Model.Mdiff.new exL exR).chunks) exL = some exR := by decide
+
+/-! ## context -/
+
+/-- **apply_context_chunks.**  For every chunk list that is `AllOK`, `Aligned`, made of `EditOK`
+edits and in which every chunk has an edit that is not an Emit (`hch`: true of every chunk of
+`New`/`AddContext`/`Unify`, see `pipeline_chunks`; the writer omits the old side of a hunk without
+Drop/Replace and the new side of a hunk without Copy/Replace, and a hunk of Emits only would have
+neither), the reference applier of the context format (`***************`, `*** a,b ****`, old side
+`  `/`- `/`! `, `--- c,d ----`, new side `  `/`+ `/`! `; an omitted side is taken from the context
+lines of the other; every old and context line checked against `L`, the new-file position checked
+against the output; an optional `***`/`---` header is skipped) run on the text written by `Context`
+— with any `FileInfo` or none — over `L` returns `R`. -/
+theorem apply_context_chunks (cs : List (Chunk Line)) (L R : List Line) (fi : Option FileInfo)
+    (hok : AllOK cs L R) (hal : Aligned L R 1 1 cs) (hed : ∀ c ∈ cs, ∀ e ∈ c.edits, EditOK e)
+    (hch : ∀ c ∈ cs, ∃ e ∈ c.edits, e.op ≠ .emit) :
+    DiffApply.applyContext (context cs fi) L = some R :=
+  applyContext_chunks cs L R fi hok hal hed hch
+
+/-- a file header with names and one timestamp, for the examples -/
+def exFi : FileInfo := ⟨str "old.txt", [], some (str "2024-01-02 03:04:05 +0000"), none⟩
+
+/-- a second instance: a pure deletion and a pure insertion (one side of each hunk is omitted) -/
+def exL2 : List Line := [['a'], ['b'], ['c'], ['d']]
+def exR2 : List Line := [['a'], ['c'], ['Q'], ['d']]
+
+set_option maxRecDepth 8000 in
+/-- non-vacuity: hypotheses and conclusion on the chunks of `New(exL, exR)` (both sides written) and
+of `New(exL2, exR2)` (old side only / new side only), without and with a file header -/
+example :
+    let cs := (Model.Mdiff.new exL exR).chunks
+    let cs2 := (Model.Mdiff.new exL2 exR2).chunks
+    AllOK cs exL exR ∧ Aligned exL exR 1 1 cs ∧ (∀ c ∈ cs, ∀ e ∈ c.edits, EditOK e) ∧
+    (∀ c ∈ cs, ∃ e ∈ c.edits, e.op ≠ .emit) ∧
+    context cs none = [str "***************", str "*** 2 ****", str "! b", str "--- 2 ----", str "! X",
+      str "***************", str "*** 5 ****", str "! e", str "--- 5,6 ----", str "! Y", str "! Z"] ∧
+    DiffApply.applyContext (context cs none) exL = some exR ∧
+    DiffApply.applyContext (context cs (some exFi)) exL = some exR ∧
+    AllOK cs2 exL2 exR2 ∧ Aligned exL2 exR2 1 1 cs2 ∧ (∀ c ∈ cs2, ∀ e ∈ c.edits, EditOK e) ∧
+    (∀ c ∈ cs2, ∃ e ∈ c.edits, e.op ≠ .emit) ∧
+    context cs2 none = [str "***************", str "*** 2 ****", str "- b", str "--- 2,1 ----",
+      str "***************", str "*** 4,3 ****", str "--- 3 ----", str "+ Q"] ∧
+    DiffApply.applyContext (context cs2 (some exFi)) exL2 = some exR2 := by decide
 
 /-! ## unified (under "no empty range": F6) -/
 
@@ -96,9 +153,6 @@ theorem apply_unified_chunks_partial (cs : List (Chunk Line)) (L R : List Line) 
     DiffApply.applyUnified (unified cs fi) L = some R :=
   applyUnified_chunks cs L R fi hok hal hne
 
-/-- a file header with names and one timestamp, for the examples -/
-def exFi : FileInfo := ⟨str "old.txt", [], some (str "2024-01-02 03:04:05 +0000"), none⟩
-
 set_option maxRecDepth 8000 in
 /-- non-vacuity: hypotheses and conclusion on the two chunks of `New(exL, exR)` (one range of length
 one, written without count, and one of length two), without and with a file header -/
@@ -109,6 +163,22 @@ example :
       str "+Z"] ∧
     DiffApply.applyUnified (unified cs none) exL = some exR ∧
     DiffApply.applyUnified (unified cs (some exFi)) exL = some exR := by decide
+
+/-- **apply_context_new.**  The context-format rendering of `New(L, R)`, with any `FileInfo` or
+none, applied to `L` by the reference rules, gives `R` (`hvalid`, `hcanon`: C11). -/
+theorem apply_context_new (L R : List Line) (fi : Option FileInfo)
+    (hvalid : EditScript.Valid (editScript L R) L R) (hcanon : EditScript.Canonical (editScript L R)) :
+    DiffApply.applyContext (context (Model.Mdiff.new L R).chunks fi) L = some R :=
+  apply_context_chunks (newChunks (editScript L R)) L R fi (C13.newChunks_ok _ L R hvalid).1
+    (C13.newChunks_aligned _ L R hvalid) (fun c hc => (newChunks_good L R hvalid hcanon c hc).1)
+    (fun c hc => (newChunks_good L R hvalid hcanon c hc).2)
+
+set_option maxRecDepth 8000 in
+example :
+    EditScript.validB (editScript exL2 exR2) exL2 exR2 = true ∧
+    EditScript.canonicalB (editScript exL2 exR2) = true ∧
+    DiffApply.applyContext (context (Model.Mdiff.new exL exR).chunks (some exFi)) exL = some exR ∧
+    DiffApply.applyContext (context (Model.Mdiff.new exL2 exR2).chunks none) exL2 = some exR2 := by decide
 
 /-- **apply_unified_new_partial.**  The unified rendering of `New(L, R)` applied to `L` gives `R`,
 provided no chunk has an empty left or right range, i.e. `New(L, R)` has no pure insertion and no
@@ -143,14 +213,7 @@ theorem pipeline_chunks (L R : List Line) (n : Nat) (hvalid : EditScript.Valid (
   obtain ⟨cs', h1, _, _⟩ := C13.addContext_ok L R n (newChunks (editScript L R)) r.1
   obtain ⟨u, u1, u2, _, _, _, u6⟩ := C13.unify_ok_partial L R n _ cs' r.1 r.2.2.1 ral
     (fun c hc => ⟨(r.2.2.2.2.2 c hc).2, r.2.2.2.2.1 c hc⟩) h1
-  have hok := newChunks_all EditOK _ (editOK_of_valid_canonical _ hvalid hcanon)
-  have g0 : ∀ c ∈ newChunks (editScript L R), Good EditOK c := by
-    intro c hc
-    refine ⟨hok c hc, ?_⟩
-    have hne := (r.2.2.2.2.2 c hc).2
-    cases he : c.edits with
-    | nil => exact absurd he hne
-    | cons e es => exact ⟨e, by simp, r.2.2.2.2.1 c hc e (by simp [he])⟩
+  have g0 := newChunks_good L R hvalid hcanon
   have g2 := unifyChunks_good editOK_of_emit cs' u
     (addContextChunks_good editOK_of_emit L R n _ cs' g0 h1) u1
   refine ⟨{ Model.Mdiff.new L R with chunks := cs' }, { Model.Mdiff.new L R with chunks := u }, ?_, ?_,
@@ -177,6 +240,23 @@ example :
     normal exPipe = [str "2c2", str "< b", str "---", str "> X", str "5c5,6", str "< e", str "---",
       str "> Y", str "> Z"] ∧
     DiffApply.applyNormal (normal exPipe) exL = some exR := by decide
+
+/-- **apply_context_pipeline.**  The same for the context format, with any `FileInfo` or none. -/
+theorem apply_context_pipeline (L R : List Line) (n : Nat) (fi : Option FileInfo)
+    (hvalid : EditScript.Valid (editScript L R) L R) (hcanon : EditScript.Canonical (editScript L R)) :
+    ∃ d1 d2, (Model.Mdiff.new L R).addContext? n = some d1 ∧ d1.unify? = .ok d2 ∧
+      DiffApply.applyContext (context d2.chunks fi) L = some R := by
+  obtain ⟨d1, d2, h1, h2, hok, hal, hed, hch⟩ := pipeline_chunks L R n hvalid hcanon
+  exact ⟨d1, d2, h1, h2, apply_context_chunks _ L R fi hok hal hed hch⟩
+
+set_option maxRecDepth 8000 in
+example :
+    context exPipe (some exFi) = [str "*** old.txt\t2024-01-02 03:04:05 +0000", str "--- b",
+      str "***************", str "*** 1,6 ****", str "  a", str "! b", str "  c", str "  d", str "! e",
+      str "  f", str "--- 1,7 ----", str "  a", str "! X", str "  c", str "  d", str "! Y", str "! Z",
+      str "  f"] ∧
+    DiffApply.applyContext (context exPipe (some exFi)) exL = some exR ∧
+    DiffApply.applyContext (context exPipe none) exL = some exR := by decide
 
 /-- **apply_unified_pipeline_partial.**  The same for the unified format, with any `FileInfo` or
 none, provided no chunk of the result has an empty left or right range (`hne`; F6, see
